@@ -1,14 +1,14 @@
 #!/bin/sh
-# tools/seedimport.sh <worktree-prop-id> <seed-id> : copy a sub-agent's deliverables into /verif/seeded/<seed-id>/ and drop the worktree
+# tools/seedimport.sh <worktree-dir> <property-id> <seed-id> : copy a sub-agent's deliverables into /verif/seeded/<seed-id>/ and drop the worktree
 set -e
-wt=/tmp/wt_$1; d=/verif/seeded/$2
+wt=$1; prop=$2; d=/verif/seeded/$3
 mkdir -p $d
 cp $wt/seeded.diff $d/patch.diff
 cp $wt/seeded_demo_test.go $d/demo_test.go
-python3 - "$1" "$2" <<'PY'
+python3 - "$wt" "$prop" "$3" <<'PY'
 import json,sys
-p,s=sys.argv[1],sys.argv[2]
-meta={"id":s,"breaks":p,"origin":"fresh sub-agent given only the property text and a scratch worktree","needs":open('/tmp/wt_%s/seeded_meta.txt'%p,errors='replace').read()}
+wt,p,s=sys.argv[1:4]
+meta={"id":s,"breaks":p,"origin":"fresh sub-agent given only the property text and a scratch worktree","needs":open(wt+'/seeded_meta.txt',errors='replace').read()}
 json.dump(meta,open('/verif/seeded/%s/meta.json'%s,'w'),indent=1)
 PY
 git -C /repo worktree remove --force $wt
